@@ -85,13 +85,14 @@ def stamp_languages(ctx, report, folder):
                  "the printed SRT stamp has the three ':' fields and the ',' fraction the reader indexes",
                  {"witness": w} if w is not None else None, "1")
     # SAMI: start=<int> written, int(float(start)) read
-    sw = ctx.index.get_function("pycaption/sami.py", "SAMIWriter._recreate_p_tag")
-    ints = [n for n in walk_no_nested(sw.node) if isinstance(n, ast.Assign) and src(n.targets[0]) in ("time", "self.last_time")]
-    ok = len(ints) == 2 and all(isinstance(n.value, ast.Call) and call_name(n.value) == "int" for n in ints)
+    # (the written side is decided on the folded SAMI writer's documents: the reference consumer parses every
+    #  start= with int(), markup_writer_fold "sami_syncs")
+    from . import markup_writer_fold
+    markup_writer_fold.run(ctx, report, {"sami_syncs": ("R-LANG-INCL", "1")})
     sr = ctx.index.get_function("pycaption/sami.py", "SAMIReader._translate_lang")
     from ..core.astutil import closure_src
     ok2 = re.search(r"int\(float\(\w+\)\)", closure_src(ctx.index, sr)) is not None
-    report.check(ok and ok2, "R-LANG-INCL", sw, "SAMI sync times are written as integers and read back as numbers", None, "1")
+    report.check(ok2, "R-LANG-INCL", sr, "SAMI sync times are read back as numbers (int(float(start)))", None, "1")
 
 
 def exactness(ctx, report, folder):
